@@ -395,6 +395,10 @@ type c33SlotStore struct {
 
 func (e *c33) nonNilCtor(v ssa.Value) bool {
 	v = c33Strip(v)
+	if mi, ok := v.(*ssa.MakeInterface); ok {
+		// a concrete error value converted to the interface (Kind.New returns *Error)
+		v = mi.X
+	}
 	call, ok := v.(*ssa.Call)
 	if !ok {
 		return false
@@ -580,6 +584,27 @@ func (e *c33) ruleSlots(stores []c33SlotStore) {
 			}
 		}
 	})
+	// ... and under "calls a storer but cannot report": a function (or literal) without an error result
+	// that calls a storer leaves the pending value to its own caller
+	for changed := true; changed; {
+		changed = false
+		e.eachInstr(e.funcs, func(fn *ssa.Function, in ssa.Instruction) {
+			cc := c33CallOf(in)
+			if cc == nil || c33ErrIndex(fn.Signature) >= 0 {
+				return
+			}
+			sf := c33StaticFn(cc)
+			if sf == nil {
+				return
+			}
+			for slot := range storers[sf] {
+				if !storers[fn][slot] {
+					mark(fn, slot)
+					changed = true
+				}
+			}
+		})
+	}
 	isSlotLoad := func(v ssa.Value, base ssa.Value, slot *types.Var) bool {
 		b, f, _, ok := c33FieldLoad(v)
 		return ok && f == slot && b == base
@@ -630,11 +655,11 @@ func (e *c33) ruleSlots(stores []c33SlotStore) {
 			return
 		}
 		sf := c33StaticFn(call.Common())
-		if sf == nil || len(storers[sf]) == 0 || len(storers[fn]) > 0 && c33Outer(fn) == c33Outer(sf) {
+		if sf == nil || len(storers[sf]) == 0 {
 			return
 		}
-		if len(storers[fn]) > 0 {
-			// a storer calling another storer: the pending value is its caller's business
+		if c33ErrIndex(fn.Signature) < 0 {
+			// cannot report: the pending value is its caller's business (fn is a storer itself)
 			return
 		}
 		if len(call.Call.Args) == 0 {
@@ -857,6 +882,19 @@ func (e *c33) ruleG3c() {
 			}
 		}
 	})
+	for changed := true; changed; {
+		changed = false
+		e.eachInstr(e.funcs, func(fn *ssa.Function, in ssa.Instruction) {
+			if cc := c33CallOf(in); cc != nil && !reStorers[fn] {
+				if sf := c33StaticFn(cc); sf != nil && reStorers[sf] {
+					for g := fn; g != nil; g = g.Parent() {
+						reStorers[g] = true
+					}
+					changed = true
+				}
+			}
+		})
+	}
 	kills := func(in ssa.Instruction, fam *c33Fam) bool {
 		switch x := in.(type) {
 		case *ssa.Store:
@@ -1009,6 +1047,8 @@ func (e *c33) checkString(key string, pos ssa.Instruction, fnName, what string, 
 			msg = fmt.Sprintf("%s comes from %s, not from an evaluated SQL argument", what, o.describe())
 		case o.arith() != "":
 			msg = fmt.Sprintf("%s is modified (operator %s) between the SQL argument and the matcher", what, o.arith())
+		case e.foreignStep(o, false) != "":
+			msg = fmt.Sprintf("%s (from %s) passes through %s between the SQL argument and the matcher: the siblings hand the converted, unwrapped value over unchanged", what, o.describe(), e.foreignStep(o, false))
 		case !e.hasConv(o):
 			msg = fmt.Sprintf("%s (from %s) does not pass through %s.%s", what, o.describe(), e.cfg.ConvType, e.cfg.ConvM)
 		case !o.hasCallee(e.unwraps):
@@ -1091,6 +1131,8 @@ func (e *c33) ruleArgs() {
 					if !ok || !isInt || k > 1 || cv < 0 || cv > lim[k] {
 						msg = fmt.Sprintf("%s: the %s argument of %s is %s; the frozen table allows constants only for %v (start, occurrence upper bounds): the match would not start at the beginning of the subject / not at the first occurrence", e.fnName(fn), p.Name(), m.Name(), o.describe(), e.cfg.ConstArgs)
 					}
+				case o.kind == "eval-field" && e.foreignStep(o, true) != "":
+					msg = fmt.Sprintf("%s: the %s argument of %s passes through %s between the SQL argument and the matcher", e.fnName(fn), p.Name(), m.Name(), e.foreignStep(o, true))
 				case o.kind == "eval-field":
 					if fld != nil && fld != o.field {
 						msg = fmt.Sprintf("%s: the %s argument of %s comes from two fields (%s, %s)", e.fnName(fn), p.Name(), m.Name(), fld.Name(), o.field.Name())
@@ -1196,4 +1238,27 @@ func (e *c33) hasConv(o c33Org) bool {
 		}
 	}
 	return false
+}
+
+// foreignStep names a call on the derivation that is neither the to-text conversion, an unwrap helper nor
+// (for integers) a conversion method of the type layer.
+func (e *c33) foreignStep(o c33Org, ints bool) string {
+	for _, st := range o.steps {
+		if st.fn == nil {
+			continue
+		}
+		if e.unwraps[st.fn] || st.fn == e.conv.Origin() {
+			continue
+		}
+		if st.fn.Name() == e.cfg.ConvM && st.fn.Pkg() != nil {
+			pp := st.fn.Pkg().Path()
+			if xp, cp := e.c.P.Pkg(e.cfg.ExprRel), e.c.P.Pkg(e.cfg.ConvRel); xp != nil && pp == xp.PkgPath || cp != nil && pp == cp.PkgPath {
+				if ints || e.hasConv(c33Org{steps: []c33Step{st}}) {
+					continue
+				}
+			}
+		}
+		return FuncName(st.fn)
+	}
+	return ""
 }
